@@ -84,6 +84,8 @@ def run_call(c: dict[str, Any]) -> Any:
         from poetry.core.version.markers import cnf, dnf, parse_marker
         if op == "mparse":
             return parse_marker(a)
+        if op == "mval":
+            return parse_marker(a).validate(c["env"])
         if op == "minv":
             return parse_marker(a).invert()
         if op == "mcnf":
@@ -565,6 +567,11 @@ def main() -> None:
     trace = bool(job.get("trace"))
     if trace:
         install_all()
+    if job.get("shim") == "swapped_eq":
+        # attribution aid ONLY (never used for a verdict run): make SingleMarker equality see the operand order
+        from poetry.core.version.markers import SingleMarker
+        SingleMarker._key = property(lambda self: (self._name, self._operator, self._value,  # type: ignore[assignment]
+                                                   getattr(self, "_swapped_name_value", False)))
     if any(c["op"][0] == "p" for c in calls):
         install_probe()   # after the recording wrappers, so that it hooks whatever `dnf`/`cnf` now are
     if job["mode"] == "seq":
